@@ -6,6 +6,7 @@ import (
 	"fmt"
 	"math/rand"
 	"sort"
+	"strings"
 
 	"verifh/cases"
 	"verifh/model"
@@ -79,7 +80,7 @@ func init() {
 			NRandom: 50, MaxTraces: 50,
 			Gen:   genParams{NBlob: 10, NTree: 10, NCommit: 10, NTag: 3, MaxEnt: 5, MaxBlob: 40, Merges: true, RootKinds: "refs"},
 			Fails: scanFails["C02"], Extra: octopusCases("c02"),
-			Rule:  "TLC families Commits (all DAGs, tied sizes; also with repeated parent headers) and Trees (tied blob sizes) x all orders, so the maximal object is first/middle/last and tied; random repositories with few distinct sizes; distinct = distinct (graph, order) / (graph, arguments)",
+			Rule: "TLC families Commits (all DAGs, tied sizes; also with repeated parent headers) and Trees (tied blob sizes) x all orders, so the maximal object is first/middle/last and tied; random repositories with few distinct sizes; distinct = distinct (graph, order) / (graph, arguments)",
 		}
 		if !quick(c) {
 			cm4 := cm
@@ -89,6 +90,17 @@ func init() {
 			p.MaxAPI, p.MaxCLIFromTLC, p.NRandom, p.MaxTraces = 60000, 300, 800, 300
 		}
 		runScanProfile(c, p)
+		// blobs beyond 32 bits through the real header parser: the maximum is the capacity, whatever else is there
+		env := newScanEnv(c, false, true)
+		for _, sizes := range [][]string{{"4294968296", "5000"}, {"7", "4294967296", "12"}, {"4294967295", "4294967294"}, {"9000000000", "1000"}} {
+			_, obs := hugeBlobOnce(env.api, sizes)
+			c.CountEval(1)
+			c.Distinct("c02-hugeblob:" + strings.Join(sizes, "+"))
+			if obs["max_blob_size"] != "4294967295" {
+				c.AddViolation(Violation{Predicate: "max_blob_size_of_huge_blobs", Spec: "ObjGraph!Maxima (capacity 2^32-1)", Kind: "hugeblob-max",
+					Input: map[string]interface{}{"sizes": sizes}, Observed: map[string]interface{}{"reported": obs}})
+			}
+		}
 	}
 
 	checks["C03"] = func(c *Ctx) {
